@@ -42,7 +42,9 @@ func Check() *engine.Check {
 	return &engine.Check{
 		ID:    "C16",
 		Level: "model_checking",
-		Rule: "(A) stateless exploration of all schedules (preemption bound 2 quick / 3 thorough) of Sign x2 || key store reload || JWKS read " +
+		Rule: "(W) the signer behind the real, started file watcher, the key store rewritten in place in 3 ways (one write call; truncated and " +
+			"filled after the truncation was noticed; in two halves) x 2 new stores, a second watched file as the barrier instead of sleeping: the " +
+			"signer ends up signing with the first key of the new store. (A) stateless exploration of all schedules (preemption bound 2 quick / 3 thorough) of Sign x2 || key store reload || JWKS read " +
 			"through the management handler on the real signer compiled from an instrumented copy of the current jwt_signer.go; every token must " +
 			"verify under the key published under its kid in one complete published key set (K1 or K2, never a mixed kid/key pair), operations " +
 			"starting after the reload returned must see K2, JWKS bodies must be exactly K1's or K2's set. (B) full product of key stores (EC " +
@@ -513,6 +515,10 @@ func run(c *engine.Ctx) {
 
 	runSchedules(c)
 
+	// the signer behind the real file watcher (real clock: the harness bounds its waits)
+	widx := 0
+	runRealWatcher(c, &widx)
+
 	env.SetNow(env.T0)
 	defer env.ClearNow()
 
@@ -538,6 +544,27 @@ func replay(c *engine.Ctx, raw json.RawMessage) {
 
 	var part struct {
 		Part string `json:"part"`
+	}
+
+	if json.Unmarshal(raw, &part) == nil && part.Part == "real-watcher" {
+		defer func() {
+			if workDir != "" {
+				_ = os.RemoveAll(workDir)
+			}
+		}()
+
+		var wc WatchCase
+
+		_ = json.Unmarshal(raw, &wc)
+		sig, sum := execWatch(&wc)
+
+		fmt.Printf("replay: %s -> %q %s\n", string(raw), sig, sum)
+
+		if sig != "" {
+			c.Violation(sig, sum, json.RawMessage(raw))
+		}
+
+		return
 	}
 
 	if json.Unmarshal(raw, &part) == nil && (part.Part == "families" || part.Part == "rotations" || part.Part == "holders") {
